@@ -12,7 +12,8 @@ rundemo() {
   if [ -f $sd/demo.sh ]; then timeout 900 bash $sd/demo.sh $wt/build/primesieve >/dev/null 2>&1; echo $?; return; fi
   extra=""; grep -q "fsanitize" $sd/demo.cpp && { g++ -O1 -g -std=c++17 -fsanitize=address,undefined -fno-sanitize-recover=all -DENABLE_ASSERT -I$wt/include $sd/demo.cpp $wt/src/*.cpp $wt/src/arch/x86/*.cpp -lpthread -o $wt/demo_bin >/dev/null 2>&1 || { echo build-fail; return; }; timeout 900 $wt/demo_bin >/dev/null 2>&1; echo $?; return; }
   wrapf=""; grep -q -- "--wrap=malloc" $sd/demo.cpp && wrapf="-Wl,--wrap=malloc,--wrap=realloc,--wrap=free"
-  g++ -O2 -std=c++17 -I$wt/include -I$wt/src $sd/demo.cpp $wt/build/libprimesieve.a -lpthread $wrapf -o $wt/demo_bin >/dev/null 2>&1 || { echo build-fail; return; }
+  stdf="-std=c++17"; grep -q "quadmath" $sd/demo.cpp && { stdf="-std=gnu++17"; wrapf="$wrapf -lquadmath"; }
+  g++ -O2 $stdf -I$wt/include -I$wt/src $sd/demo.cpp $wt/build/libprimesieve.a -lpthread $wrapf -o $wt/demo_bin >/dev/null 2>&1 || { echo build-fail; return; }
   timeout 900 $wt/demo_bin $wt/build/primesieve >/dev/null 2>&1; echo $?
 }
 git apply $sd/patch.diff 2>/dev/null || patch -p1 -F3 --no-backup-if-mismatch -r - < $sd/patch.diff >/dev/null 2>&1 || { cd /; git -C /repo worktree remove --force $wt; echo "{\"seed\":\"$name\",\"error\":\"patch does not apply at $base\"}"; exit 1; }
